@@ -87,14 +87,17 @@ package trie
 // bit length of the k-th stored inner prefix (bitstr encoding: the last byte holds the number of used bits as a mask)
 //@ define iplen(st *SlimTrie, k int) = 8*(select1(st.inner.InnerPrefixes.PositionBM.Words, k+1) - select1(st.inner.InnerPrefixes.PositionBM.Words, k)) - 16
 //@     + popcnt8(st.inner.InnerPrefixes.Bytes[select1(st.inner.InnerPrefixes.PositionBM.Words, k+1) - 1])
+// (257-bit nodes sit at byte-aligned key positions: their steps / stored prefixes are whole bytes — bounded twin: W14)
 //@ predicate wf_iprefix(st *SlimTrie) = st.inner.InnerPrefixes != nil
 //@     && (st.inner.InnerPrefixes.EltCnt > 0 ==> wf_r128(st.inner.InnerPrefixes.PresenceBM)
 //@          && nI(st) <= 64*len(st.inner.InnerPrefixes.PresenceBM.Words)
 //@          && ones(st.inner.InnerPrefixes.PresenceBM.Words) == int(st.inner.InnerPrefixes.EltCnt)
-//@          && (st.inner.InnerPrefixes.PositionBM == nil ==> len(st.inner.InnerPrefixes.Bytes) == 2*int(st.inner.InnerPrefixes.EltCnt))
+//@          && (st.inner.InnerPrefixes.PositionBM == nil ==> len(st.inner.InnerPrefixes.Bytes) == 2*int(st.inner.InnerPrefixes.EltCnt)
+//@                && forall(t, 0, nB(st), has_step(st, t) ==> decstep(st.inner.InnerPrefixes.Bytes, 2*rank1(st.inner.InnerPrefixes.PresenceBM.Words, t)) % 8 == 0, at))
 //@          && (st.inner.InnerPrefixes.PositionBM != nil ==> wf_pos(st.inner.InnerPrefixes.PositionBM, int(st.inner.InnerPrefixes.EltCnt), st.inner.InnerPrefixes.Bytes)
 //@                && len(st.inner.InnerPrefixes.Bytes) <= 100000000
-//@                && forall(k, 0, int(st.inner.InnerPrefixes.EltCnt), iplen(st, k) % 4 == 0 && iplen(st, k) >= 0, at)))
+//@                && forall(k, 0, int(st.inner.InnerPrefixes.EltCnt), iplen(st, k) % 4 == 0 && iplen(st, k) >= 0, at)
+//@                && forall(t, 0, nB(st), has_step(st, t) ==> iplen(st, rank1(st.inner.InnerPrefixes.PresenceBM.Words, t)) % 8 == 0, at)))
 
 // ---------------------------------------------------------------------------
 // query primitives
@@ -194,6 +197,8 @@ package trie
 //@   at "qr.innerPrefixLen = bitstr.Len(qr.innerPrefix)" use at(rank1(st.inner.InnerPrefixes.PresenceBM.Words, qr.ithInner))
 //@   at "qr.innerPrefixLen = bitstr.Len(qr.innerPrefix)" assert qr.innerPrefixLen%4 == 0
 //@   at "qr.innerPrefixLen = bitstr.Len(qr.innerPrefix)" assert 0 <= qr.innerPrefixLen && qr.innerPrefixLen <= 800000000
+//@   at "qr.innerPrefixLen = bitstr.Len(qr.innerPrefix)" assert int(qr.ithInner) < nB(st) ==> qr.innerPrefixLen%8 == 0
+//@   at "qr.innerPrefixLen = decStep(" assert int(qr.ithInner) < nB(st) ==> qr.innerPrefixLen%8 == 0
 //@   after Rank128#1 use at(result0, result0 + 1)
 //@   ensures int(qr.isInner) == bitat(NTW(st), nodeId) && int(qr.ithInner) == rank1(NTW(st), nodeId)
 //@   ensures qr.key == old(qr.key) && qr.keyBitLen == old(qr.keyBitLen)
@@ -208,6 +213,7 @@ package trie
 //@   ensures qr.isInner == 1 && has_step(st, int(qr.ithInner)) && st.inner.InnerPrefixes.PositionBM == nil ==>
 //@       int(qr.innerPrefixLen) == decstep(st.inner.InnerPrefixes.Bytes, 2*rank1(st.inner.InnerPrefixes.PresenceBM.Words, qr.ithInner))
 //@   ensures qr.hasInnerPrefix ==> len(qr.innerPrefix) >= 1 && int(qr.innerPrefixLen) == bitstr_len(qr.innerPrefix)
+//@   ensures qr.isInner == 1 && int(qr.ithInner) < nB(st) ==> qr.innerPrefixLen % 8 == 0
 //@   ensures qr.hasInnerPrefix ==> qr.innerPrefixLen%4 == 0 && 0 <= qr.innerPrefixLen && qr.innerPrefixLen <= 800000000
 //@   ensures qr.isInner == 1 && is_short(st, int(qr.ithInner)) ==> qr.bm == shortbm(st, int(qr.ithInner))
 //@   ensures qr.hasInnerPrefix ==> sameslice(qr.innerPrefix, st.inner.InnerPrefixes.Bytes[
@@ -393,10 +399,36 @@ func lemmaTypedGettersAgreeOnFound(st *SlimTrie, key string) (bool, bool, bool, 
 // normal postcondition and the frame are claimed for this function (its descent is bounded-checked).
 
 //@ func (*SlimTrie).getGEPath
-//@   property C04 C07
-//@   opt kinds=post,panic.explicit
-//@   requires st.inner != nil
+//@   property C04 C07 C10
+//@   opaque wf_iprefix wf_lprefix
+//@   opt kinds=post,panic.explicit,panic,overflow,frame,pre(getNode),pre(getLeftChildID),pre(Rank128),pre(strCmpUpto),pre(cmpLeafPrefix)
+//@   opt stable=wf_query,wf_core,wf_tree,wf_iprefix,wf_lprefix
+//@   requires wf_query(st) && len(key) <= 100000000
 //@   panics st.inner.NodeTypeBM != nil && (st.inner.InnerPrefixes == nil || st.inner.InnerPrefixes.PositionBM == nil || st.inner.LeafPrefixes == nil)
+//@   loop 1 invariant 0 <= eqID && int(eqID) < nN(st)
+//@   loop 1 invariant 0 <= i && i <= l
+//@   loop 1 invariant i%4 == 0
+//@   loop 1 invariant i%8 == 0 || rank1(NTW(st), eqID) >= nB(st)
+//@   loop 1 invariant qr != nil && qr.key == key && qr.keyBitLen == l && int(l) == 8*len(key) && ns == st.inner
+//@   loop 1 invariant len(path) <= int(eqID) && -1 <= rightPathLen && int(rightPathLen) <= len(path) && fresh(path)
+//@   loop 1 invariant (rID == -1 || (0 <= rID && int(rID) < nN(st))) && (rID != -1 ==> 0 <= rightPathLen)
+//@   loop 1 freshwrites E.Int
+//@   loop 1 decreases nN(st) - int(eqID)
+//@   after getNode#1 use at(qr.ithInner, eqID)
+//@   after getNode#1 assert qr.isInner == 1 ==> rank1(INW(st), qr.from) >= int(eqID)
+//@   after getNode#1 assert qr.isInner == 1 && is_short(st, int(qr.ithInner)) ==> rank1(INW(st), qr.from) + popcnt64(qr.bm) < nN(st)
+//@   after strCmpUpto#1 assert result == 0 ==> len(key) - int(i)/8 >= len(qr.innerPrefix) - 1
+//@   at "i = i&(^7) + qr.innerPrefixLen" assert i <= l
+//@   after getLeftChildID#1 use rank1_le_ones(INW(st), int(qr.from) + labelidx(qr.key, int(qr.keyBitLen), int(qr.wordSize), int(i)))
+//@   after getLeftChildID#1 use rank1_mono(INW(st), int(qr.from), int(qr.from) + labelidx(qr.key, int(qr.keyBitLen), int(qr.wordSize), int(i)))
+//@   after getLeftChildID#1 use popcnt_bit_le(qr.bm, labelidx(qr.key, int(qr.keyBitLen), int(qr.wordSize), int(i)))
+//@   after getLeftChildID#1 use popcnt_mask_le(qr.bm, labelidx(qr.key, int(qr.keyBitLen), int(qr.wordSize), int(i)))
+//@   after getLeftChildID#1 use rank1_le_ones(INW(st), int(qr.to) - 1)
+//@   after getLeftChildID#1 assert int(qr.to - qr.from) != nS(st) ==> int(qr.from) + labelidx(qr.key, int(qr.keyBitLen), int(qr.wordSize), int(i)) < int(qr.to)
+//@   after getLeftChildID#1 assert result1 == 1 ==> int(result0) + 1 < nN(st)
+//@   after getLeftChildID#1 assert int(result0) >= int(eqID) && 0 <= result0
+//@   after getLeftChildID#1 use rank1_step(NTW(st), int(eqID))
+//@   after getLeftChildID#1 use rank1_mono(NTW(st), int(eqID) + 1, int(result0) + 1)
 //@   ensures st.inner.NodeTypeBM == nil || (st.inner.InnerPrefixes != nil && st.inner.InnerPrefixes.PositionBM != nil && st.inner.LeafPrefixes != nil)
 //@   ensures st.inner.NodeTypeBM == nil ==> len(result0) == 0 && !result1
 
